@@ -227,7 +227,9 @@ def sort_workload(ops, rng, n):
         w.reset()
         w.init(rand_init(rng, True) if rng.random() < 0.3 else b'')
         cnt = 0
-        for _ in range(rng.randint(2, 14)):
+        # list sizes on both sides of the small-array cut-offs of the usual sort implementations (8, 16, 32, 64):
+        # an unstable sort is indistinguishable from a stable one below its insertion-sort threshold
+        for _ in range(rng.randint(2, 14) if rng.random() < 0.6 else rng.choice([15, 16, 17, 18, 24, 31, 32, 33, 40, 63, 64, 65, 80, 130])):
             cnt += 1
             w.append(rng.choice(names), str(cnt).encode())
             if rng.random() < 0.1:
